@@ -70,6 +70,17 @@ def _new_stats(tier):
 
 
 def run_case(idx):
+    """never lets anything but a result leave the worker: a BaseException escaping a pool worker kills it and the pool waits forever"""
+    try:
+        return _run_case(idx)
+    except BaseException as e:  # noqa: BLE001 - turned into a harness error (exit 2) by the aggregator
+        case = _G["cases"][idx]
+        return dict(id=case.id, paths=0, outcomes={"ok": 0, "raise": 0, "unsupported": 0, "domain": 0, "limit": 0}, truncated=False,
+                    error="engine: " + "".join(traceback.format_exception(e))[-1500:], wall=0.0, functions=[], messages=[],
+                    allow_unsupported=case.allow_unsupported, bounds=case.bounds, group=case.group, stats=_new_stats(_G["tier"]))
+
+
+def _run_case(idx):
     from . import core, shims
     from .ctx import SymCtx
     case = _G["cases"][idx]
@@ -161,16 +172,20 @@ def run_pinned(case, mods, seed):
         return case.fn(ctx)
     try:
         results, _ = core.explore(body, max_paths=4)
-    except Exception as e:
+    except (Exception, core.ControlFlow) as e:
         return {"error": f"{type(e).__name__}: {e}"}
     if len(results) != 1:
         return {"error": f"pinned run took {len(results)} paths"}
     ex, out = results[0]
     ctx = box["ctx"]
-    try:
-        obs = [(l, _num(v)) for l, v in ctx.observations]
-    except Exception as e:
-        return {"error": f"observation not numeric: {e}"}
+    obs = []
+    for l, v in ctx.observations:
+        try:
+            obs.append((l, _num(v)))
+        except (Exception, core.ControlFlow):
+            # an observation that stays a term in pinned mode (a root witness, an uninterpreted kernel): it cannot be compared
+            # with the concrete run and is skipped, the obligations of the case are unaffected
+            obs.append((l, "unobservable"))
     return {"outcome": out[0] if out[0] != "raise" else "raise:" + type(out[1]).__name__,
             "req": [[l, bool(ok)] for l, ok in ctx.req_log], "obs": obs}
 
